@@ -31,6 +31,7 @@ type Oblig struct {
 	gen    *Gen
 	Bounded bool  `json:"bounded,omitempty"`
 	Opaque []string `json:"opaque,omitempty"`
+	NoAssumed bool `json:"-"` // query variant without the "asserted, then assumed" context lines (replay search)
 }
 
 type pathElem struct {
@@ -129,6 +130,8 @@ type Gen struct {
 	inputs map[string]string
 	topParams map[string]tvT
 	nret int
+	replay *replayInfo
+	assumedIdx []int
 }
 
 func newGen(w *World, fn *ssa.Function, c *Contract) *Gen {
@@ -175,6 +178,13 @@ func (g *Gen) assume(guard, a string) {
 		return
 	}
 	g.defs = append(g.defs, fmt.Sprintf("(assert (=> %s %s))", guard, a))
+}
+
+// assumeProved: a clause that has just been asserted is assumed for what follows (proof steps chain);
+// these context lines are remembered so that replay can drop them (see replayOblig).
+func (g *Gen) assumeProved(guard, a string) {
+	g.assumedIdx = append(g.assumedIdx, len(g.defs))
+	g.assume(guard, a)
 }
 
 func (g *Gen) assumeAlways(a string) {
@@ -1376,7 +1386,7 @@ func (g *Gen) loopHead(b *ssa.BasicBlock, k int, li *loopInfo) {
 		for i, inv := range lc.Inv {
 			t := g.transBool(inv.E, env)
 			g.ob(fmt.Sprintf("loop%d-entry", k), invLabel(inv, i), t, inv.E.String())
-			g.assume(g.curR, t)
+			g.assumeProved(g.curR, t)
 		}
 		g.cur, g.curR = saveCur, saveR
 	}
@@ -1449,7 +1459,7 @@ func (g *Gen) backEdgeObs(b *ssa.BasicBlock, li *loopInfo) {
 		for i, inv := range lc.Inv {
 			t := g.transBool(inv.E, env)
 			g.ob(fmt.Sprintf("loop%d-preserve", k), invLabel(inv, i), t, inv.E.String())
-			g.assume(g.curR, t)
+			g.assumeProved(g.curR, t)
 		}
 		if lc.Decreases != nil {
 			d := g.trans(lc.Decreases, env)
